@@ -743,10 +743,11 @@ def gen_c01(tier, seed):
         elif nv.startswith('opt'):
             ops += ['rs:%x' % v, 'k:%x' % k, 'bt:%x' % maxboot, settle, 'dk', 'nsv', 'nsp:2:%x' % int(nv[3:]), 'rs:%x' % v, 'nrs']
         if nv == 'traffic':
-            # the host keeps sending while the terminal powers up (one byte every 25 ms for the first 2 s of emulated
-            # time): the terminal must still become interactive; what it does with those bytes is not judged
+            # the host keeps sending while the terminal powers up (one byte every 25 ms; for firmware 1, whose power-on
+            # self-test puts the DUART in loop-back for a while, during the first 20 s of emulated time, which covers
+            # the whole boot): the terminal must still become interactive; what it does with those bytes is not judged
             ops += ['rs:%x' % v, 'k:%x' % k]
-            for _b in range(80):
+            for _b in range(800 if v == 1 else 80):
                 ops += ['qa:%x' % r.choice([0x20, 0x41, 0x0d, 0x55, 0xaa]), 'run:%x' % max(1, 25000000 // k)]
             ops += ['bt:%x' % maxboot, settle, settle, 'dk', 'vr', 'vd']
         else:
